@@ -471,6 +471,45 @@ pub fn gen_ops(rng: &mut Rng, cfg: &Cfg, p: &GenParams) -> Vec<Op> {
       }
       ops.push(Op::Commit { h });
       ops.push(Op::Compact);
+      // with overlapping handles: another handle refills the emptied index
+      // with a few commits, then the first one - idle meanwhile - touches
+      // what was added
+      if p.overlap && rng.chance(1, 2) {
+        let other = live.iter().copied().find(|x| *x != h).or_else(|| {
+          if live.len() < p.max_handles.max(2) {
+            let n = next_h;
+            next_h += 1;
+            live.push(n);
+            ops.push(Op::NewWriter { h: n });
+            Some(n)
+          } else {
+            None
+          }
+        });
+        if let Some(b) = other {
+          let k = 1 + rng.usize(3);
+          for i in 0..k {
+            ops.push(Op::Add {
+              h: b,
+              id: ids[i % ids.len()].clone(),
+              ver: next_ver,
+            });
+            next_ver += 1;
+            ops.push(Op::Commit { h: b });
+          }
+          if rng.chance(1, 2) {
+            ops.push(Op::Add {
+              h,
+              id: ids[0].clone(),
+              ver: next_ver,
+            });
+            next_ver += 1;
+          } else {
+            ops.push(Op::Delete { h, id: ids[0].clone() });
+          }
+          ops.push(Op::Commit { h });
+        }
+      }
       continue;
     }
     let mut w = p.weights;
